@@ -71,6 +71,12 @@ func flight3Parse(
 			return 0, &alert.Alert{Level: alert.Fatal, Description: alert.ProtocolVersion},
 				dtlserrors.ErrUnsupportedProtocolVersion
 		}
+		// This client offered DTLS 1.3; a server that supports it too answers
+		// with DTLS 1.2 only if the offer did not reach it as sent.
+		if cfg.MaxVersion.Equal(protocol.Version1_3) && bytes.HasSuffix(serverHelloMsg.Random.RandomBytes[:], downgradeSentinel12[:]) {
+			return 0, &alert.Alert{Level: alert.Fatal, Description: alert.IllegalParameter},
+				dtlserrors.ErrUnsupportedProtocolVersion
+		}
 		offer := state.LocalClientHelloSnapshots.Current()
 		if validationErr := negotiation.ValidateServerHello12Context(serverHelloMsg); validationErr != nil {
 			return 0, &alert.Alert{Level: alert.Fatal, Description: alert.IllegalParameter}, validationErr
